@@ -259,7 +259,7 @@ impl<'jbrd, 'frame, 'meta> JpegBitstreamReconstructor<'jbrd, 'frame, 'meta> {
         }
 
         if !header.is_gray && !is_subsampled {
-            Self::integer_cfl(frame_header, &hf_global, &lf_groups, &mut pass_groups, pool);
+            Self::integer_cfl(frame_header, &hf_global, &lf_groups, &mut pass_groups, pool)?;
         }
 
         let dc_offset = if frame_header.do_ycbcr {
@@ -319,17 +319,24 @@ impl<'jbrd, 'frame, 'meta> JpegBitstreamReconstructor<'jbrd, 'frame, 'meta> {
         lf_groups: &[LfGroup<i16>],
         pass_groups: &mut [[AlignedGrid<i32>; 3]],
         pool: &jxl_threadpool::JxlThreadPool,
-    ) {
+    ) -> Result<()> {
         let dequant_x = hf_global.dequant_matrices.jpeg_quant_values(0).unwrap();
         let dequant_y = hf_global.dequant_matrices.jpeg_quant_values(1).unwrap();
         let dequant_b = hf_global.dequant_matrices.jpeg_quant_values(2).unwrap();
 
+        // Quantisation values come from the bitstream: no overflow, no division by zero.
+        let ratio = |y: i32, d: i32| -> Result<i32> {
+            let r = ((1i64 << CFL_FIXED_POINT_BITS) * y as i64)
+                .checked_div(d as i64)
+                .ok_or(Error::InvalidData)?;
+            i32::try_from(r).map_err(|_| Error::InvalidData)
+        };
         let dequant_yx = std::iter::zip(dequant_y, dequant_x)
-            .map(|(&y, &x)| (1 << CFL_FIXED_POINT_BITS) * y / x)
-            .collect::<Vec<_>>();
+            .map(|(&y, &x)| ratio(y, x))
+            .collect::<Result<Vec<_>>>()?;
         let dequant_yb = std::iter::zip(dequant_y, dequant_b)
-            .map(|(&y, &b)| (1 << CFL_FIXED_POINT_BITS) * y / b)
-            .collect::<Vec<_>>();
+            .map(|(&y, &b)| ratio(y, b))
+            .collect::<Result<Vec<_>>>()?;
         let quant_ratio = [dequant_yx, dequant_yb];
 
         let groups_per_row = frame_header.groups_per_row();
@@ -390,6 +397,7 @@ impl<'jbrd, 'frame, 'meta> JpegBitstreamReconstructor<'jbrd, 'frame, 'meta> {
                 });
             }
         });
+        Ok(())
     }
 }
 
